@@ -1124,7 +1124,8 @@ def run(ctx: core.Ctx):
              "expected_clusters": oracle_clusters(small) if len(small["ids"]) <= 40 else None,
              "detail": what or w, "original_case_size": len(c["ids"])},
             kind="concrete",
-            match_info={"entry": small["entry"], "failure": (what or w).split(":")[0], "engine": small["engine"], "sqlite_compound_select_limit": limit},
+            match_info={"entry": small["entry"], "failure": (what or w).split(":")[0], "engine": small["engine"], "sqlite_compound_select_limit": limit,
+                        "empty_edge_table_as_pandas_frame": not small["edges"] and "CANNOT_INFER_EMPTY_SCHEMA" in (what or w)},
         )
     if not ctx.violations:  # no NEW concrete violation (none at all, or only ones a registered known finding describes)
         if broken:
